@@ -8,7 +8,20 @@ from protolib import hexs
 
 PROPS = "Props/Properties_C11.v"
 MODULES = ["math", "pe", "elf", "time", "console", "string", "hash"]
-NSNAMES = ["default", "nsb", "nsc"]
+_NS3 = ["default", "nsb", "nsc"]
+SCALE_BUF = b"..q69z..q64z..q71z..abc.."
+
+
+def nsname(i):
+    return _NS3[i] if i < 3 else "n%d" % i
+
+
+class _NS:
+    def __getitem__(self, i):
+        return nsname(i)
+
+
+NSNAMES = _NS()
 BUFS = [b"", b"zz", b"abc", b"xxabcxx"]
 
 # conditions whose truth the generator controls: (source text, needs $a, module, value as function of buffer)
@@ -48,12 +61,16 @@ class RuleSet:
             src = "".join('import "%s"\n' % m for m in imps)
             for r in rs:
                 c = r["cond"]
+                strs = ""
                 if isinstance(c, tuple):
-                    text, needs = c[1], False
+                    text = c[1]
+                    if c[0] == "raw":
+                        strs = c[3]
                 else:
-                    text, needs = CONDS[c][0], CONDS[c][1]
+                    text = CONDS[c][0]
+                    strs = 'strings: $a = "abc" ' if CONDS[c][1] else ""
                 src += "%s%srule %s { %scondition: %s }\n" % ("global " if r["g"] else "", "private " if r["p"] else "",
-                                                           r["name"], 'strings: $a = "abc" ' if needs else "", text)
+                                                           r["name"], strs, text)
             cmds.append("add " + hexs(src))
         cmds += ["getrules", "scanner 0", "pcb"]
         for ns, _, rs in self.sources:
@@ -78,7 +95,9 @@ class RuleSet:
         out = []
         for ns, r in self.rules():
             c = r["cond"]
-            if isinstance(c, tuple):      # reference to an earlier rule of the same namespace: its raw result bit
+            if isinstance(c, tuple) and c[0] == "raw":      # condition text given with its value
+                v = c[2]
+            elif isinstance(c, tuple):      # reference to an earlier rule of the same namespace: its raw result bit
                 v = raw[c[1]]
             else:
                 v = CONDS[c][3](buf)
@@ -177,6 +196,77 @@ def scripts_for(nmsgs, rng, exhaustive):
     out.append("0:3")     # an answer that is none of the three constants is ignored
     return out
 
+BOUNDARY = [31, 32, 33, 63, 64, 65, 127, 128, 129]
+
+
+def many_namespaces(n, failing, mods):
+    """n namespaces, each: a global rule (false iff its namespace is in `failing`), a private rule, a true rule, a
+    false rule, every 16th also a global private one; three modules imported in several namespaces"""
+    sources = []
+    k = 0
+    for i in range(n):
+        imps = []
+        if i == 0:
+            imps = [mods[0]]
+        elif i == 35:
+            imps = [mods[1], mods[0]]
+        elif i == 66:
+            imps = [mods[2 % len(mods)], mods[1]]
+        rs = []
+        for role in ("g", "p", "t", "f") + (("gp",) if i % 16 == 5 else ()):
+            cond = 0
+            if role == "g" and i in failing:
+                cond = 1
+            if role == "f":
+                cond = 1
+            if role == "t" and imps and imps[0] == "math":
+                cond = 5
+            rs.append({"name": "r%d" % k, "g": int(role in ("g", "gp")), "p": int(role in ("p", "gp")), "d": 0, "cond": cond})
+            k += 1
+        sources.append((i, imps, rs))
+    return RuleSet(sources)
+
+
+def many_rules(n, true_at, glob=None, glob_cond=0):
+    """n rules in one namespace; rule k true iff k in true_at; every 7th private; a few disabled; optionally one global"""
+    rs = []
+    for k in range(n):
+        rs.append({"name": "r%d" % k, "g": int(k == glob), "p": int(k % 7 == 3), "d": int(k in (30, 66, 130)),
+                   "cond": (glob_cond if k == glob else (0 if k in true_at else 1))})
+    return RuleSet([(0, [], rs)])
+
+
+def many_strings(nstr=72):
+    """rules with nstr strings each; SCALE_BUF contains q69z, q64z and q71z only"""
+    decl = "strings: " + " ".join('$s%d = "q%02dz"' % (i, i) for i in range(nstr)) + " "
+    present = {64, 69, 71}
+    conds = [("$s69", True), ("$s33", False), ("$s64 and not $s31", True), ("#s71 == 1", True), ("#s70 == 0 and #s63 == 0", True),
+             ("any of them", True), ("all of them", False), ("3 of them", True), ("4 of them", False), ("$s32 or $s65", False)]
+    rs0, rs1 = [], []
+    for k, (text, v) in enumerate(conds):
+        # "them" makes every string referenced (an unreferenced string is a compile error)
+        r = {"name": "r%d" % k, "g": int(k == 4), "p": int(k == 7), "d": 0, "cond": ("raw", "(%s) and (any of them or true)" % text, v, decl)}
+        (rs0 if k % 2 == 0 else rs1).append(r)
+    return RuleSet([(0, [], rs0), (1, [], rs1)])
+
+
+def scale_rulesets(mods, quick):
+    out = []
+    for n in (70, 130):
+        b = [x for x in BOUNDARY if x < n]
+        fails = [{x} for x in b] + [set(b[1::3]), set(range(n)) - set(b[1::3]), set()]
+        if quick and n == 70:
+            fails = [{32}, {33}, {63, 65}, set(range(n)) - {33, 64}]
+        for f in fails:
+            out.append(many_namespaces(n, f, mods))
+    tb = set(BOUNDARY) - {32, 64, 128}
+    out.append(many_rules(140, tb))
+    out.append(many_rules(140, set(range(140)) - tb))
+    out.append(many_rules(140, set(range(0, 140, 2)), glob=128, glob_cond=0))
+    out.append(many_rules(140, set(range(1, 140, 2)), glob=64, glob_cond=1))
+    out.append(many_strings(72))
+    return out
+
 
 def run(chk):
     ok, log, st = vlib.proof_obligations(chk, PROPS)
@@ -223,17 +313,26 @@ def run(chk):
         (0, [mods[0]], [{"name": "r4", "g": 0, "p": 0, "d": 0, "cond": ("ref", "r0")}, {"name": "r5", "g": 1, "p": 0, "d": 1, "cond": 0}]),
         (1, [], [{"name": "r6", "g": 0, "p": 0, "d": 0, "cond": 0}])])))
 
+    # every dimension past one byte / 32 bits / one 64-bit word: 70 and 130 namespaces (a failing global rule in the
+    # namespaces around 32, 64, 128), 140 rules in one namespace, rules with 72 strings, 3 modules over several namespaces
+    for rs in scale_rulesets(mods, quick):
+        rulesets.append(("scale", rs))
+
     cases, plan = [], []     # plan: per case the list of (flags, script, buf, entry)
     sg = chk.rng.fork()
     for ci, (kind, rs) in enumerate(rulesets):
         cmds = rs.commands()
         scans = []
         nmsgs = 2 * len(set(rs.import_ids())) + len(rs.rules()) + 1
-        bufs = [BUFS[3]] if kind == "small" else [sg.choice(BUFS), BUFS[3]]
+        bufs = [BUFS[3]] if kind == "small" else [SCALE_BUF] if kind == "scale" else [sg.choice(BUFS), BUFS[3]]
         for buf in bufs:
             for f in FLAGS:
                 exhaustive = nmsgs <= 12 and (kind != "random" or not quick or f == 0)
-                for sc in scripts_for(nmsgs, sg, exhaustive):
+                scs = scripts_for(nmsgs, sg, exhaustive)
+                if kind == "scale":       # sampled: around the message positions of rules 32/64/128 as well
+                    scs = scs[:1] + ["%d:%d" % (k, a) for k in sorted(set(sg.below(nmsgs + 1) for _ in range(3)) | {sg.choice([31, 32, 33, 64, 65, 128, 129]) % (nmsgs + 1)})
+                                     for a in (1, 2)] + scs[-1:]
+                for sc in scs:
                     entry = "scan" if sg.chance(4, 5) else "rscan"
                     scans.append((f, sc, buf, entry))
                     cmds.append("script " + sc)
@@ -285,8 +384,12 @@ def run(chk):
                 break
             got_msgs = [m[:3] if m[0] in "MN" else m for m in got[0]]
             if got_msgs != exp_msgs or got[1] != exp_rc:
-                chk.violation("trace:" + kind, "callback trace differs from the model: flags=%d script=%s impl=%s rc=%d model=%s rc=%d"
-                              % (f, sc, got_msgs, got[1], exp_msgs, exp_rc), replay)
+                d = next((i for i, (a, b) in enumerate(zip(got_msgs, exp_msgs)) if a != b), min(len(got_msgs), len(exp_msgs)))
+                lo = max(0, d - 2)
+                chk.violation("trace:" + kind, "callback trace differs from the model (%d rules, %d namespaces) at message %d: flags=%d script=%s "
+                              "impl[%d:]=%s (%d messages) rc=%d model[%d:]=%s (%d messages) rc=%d"
+                              % (len(rs.rules()), len(rs.ns_order()), d, f, sc, lo, got_msgs[lo:d + 4], len(got_msgs), got[1],
+                                 lo, exp_msgs[lo:d + 4], len(exp_msgs), exp_rc), replay)
                 continue
             if bits and bits.startswith("bits rm="):
                 n_bits += 1
